@@ -26,7 +26,7 @@ def sorted_strict(ex, se, xs, lo=None, hi=None):
     a = s.comps[0]
     l = z3.IntVal(0) if lo is None else ops.to_int(lo)
     h = s.n if hi is None else ops.to_int(hi)
-    i, j = z3.Int(fresh_name("si")), z3.Int(fresh_name("sj"))
+    i, j = z3.Int("si!b"), z3.Int("sj!b")
     return VBool(z3.ForAll([i, j], z3.Implies(z3.And(l <= i, i < j, j < h), a[i] < a[j])))
 
 
@@ -34,7 +34,7 @@ def sorted_strict(ex, se, xs, lo=None, hi=None):
 def sorted_weak(ex, se, xs):
     s = _seq_of(ex, se, xs)
     a = s.comps[0]
-    i, j = z3.Int(fresh_name("si")), z3.Int(fresh_name("sj"))
+    i, j = z3.Int("si!b"), z3.Int("sj!b")
     return VBool(z3.ForAll([i, j], z3.Implies(z3.And(0 <= i, i < j, j < s.n), a[i] <= a[j])))
 
 
@@ -43,7 +43,7 @@ def same_elems(ex, se, xs, ys, lo, hi, shift=None):
     """forall k in [lo,hi): xs[k] == ys[k+shift]  (all components)."""
     a, b = _seq_of(ex, se, xs), _seq_of(ex, se, ys)
     sh = z3.IntVal(0) if shift is None else ops.to_int(shift)
-    k = z3.Int(fresh_name("sk"))
+    k = z3.Int("sk!b")
     body = z3.And([x[k] == y[k + sh] for x, y in zip(a.comps, b.comps)])
     return VBool(z3.ForAll([k], z3.Implies(z3.And(ops.to_int(lo) <= k, k < ops.to_int(hi)), body)))
 
@@ -81,7 +81,7 @@ def wf(ex, se, f):
     tmp.heap = se.st.heap
     n = list_len(tmp, coords)
     a = list_arrays(tmp, coords)[0]
-    i, j = z3.Int(fresh_name("wi")), z3.Int(fresh_name("wj"))
+    i, j = z3.Int("wi!b"), z3.Int("wj!b")
     return VBool(z3.And(n == list_len(tmp, payloads), coords.t != payloads.t,
                         _fld(ex, se, f, "_ordered").t, _fld(ex, se, f, "_unique").t,
                         z3.Not(_fld(ex, se, f, "_is_lazy").t),
@@ -112,7 +112,7 @@ def member(ex, se, x, xs, lo=None, hi=None):
     s = _seq_of(ex, se, xs)
     l = z3.IntVal(0) if lo is None else ops.to_int(lo)
     h = s.n if hi is None else ops.to_int(hi)
-    k = z3.Int(fresh_name("mk"))
+    k = z3.Int("mk!b")
     xv = x.val if isinstance(x, VOpt) else x
     return VBool(z3.Exists([k], z3.And(l <= k, k < h, s.comps[0][k] == xv.t)))
 
@@ -122,7 +122,7 @@ def index_of(ex, se, xs, x):
     """First index of x in the list (as list.index): an index term r with xs[r] == x and no earlier occurrence, when x occurs."""
     s = _seq_of(ex, se, xs)
     r = z3.Int(fresh_name("idx"))
-    j = z3.Int(fresh_name("j"))
+    j = z3.Int("j!b")
     occurs = z3.Exists([j], z3.And(0 <= j, j < s.n, s.comps[0][j] == x.t))
     se.facts.append(z3.Implies(occurs, z3.And(0 <= r, r < s.n, s.comps[0][r] == x.t,
                                               z3.ForAll([j], z3.Implies(z3.And(0 <= j, j < r), s.comps[0][j] != x.t)))))
